@@ -25,6 +25,8 @@ pub enum Piece {
     Use(String, Option<Vec<Option<Vec<Piece>>>>),
     /// line continuation between pieces
     Cont,
+    /// block comment inside a body: part of the macro text, white space as far as tokens go
+    Cmt(String),
     /// `define <name> <body> as the last piece of a body (a define-generating macro); name is a Tok or a Formal
     DefStmt(Box<Piece>, String),
     /// `undef <name> as the last piece of a body
@@ -110,6 +112,7 @@ fn render_piece(p: &Piece, formals: &[(String, Option<String>)]) -> String {
         Piece::Paste(v) => v.iter().map(|x| render_piece(x, formals)).collect::<Vec<_>>().join("``"),
         Piece::Strfy(v) => format!("`\"{}`\"", v.iter().map(|x| render_piece(x, formals)).collect::<Vec<_>>().join(" ")),
         Piece::Str(s) => format!("\"{}\"", s),
+        Piece::Cmt(c) => c.clone(),
         Piece::Use(n, args) => {
             let mut s = format!("`{}", n);
             if let Some(a) = args {
@@ -214,7 +217,8 @@ impl<'r> Renderer<'r> {
                 Item::Comment(c) => {
                     out.push_str(c);
                     if c.starts_with("//") {
-                        out.push('\n');
+                        // white space between the comment text and its newline now and then
+                        out.push_str(*self.r.pick(&["\n", "\n", "\n", " \n", "\t\n", " \t \n"]));
                     } else {
                         out.push_str(self.sep());
                     }
@@ -777,7 +781,7 @@ impl<'a> Eval<'a> {
             Piece::Paste(v) => v.iter().map(|x| self.piece_text(x, vals)).collect::<Vec<_>>().concat(),
             Piece::Strfy(v) => format!("\"{}\"", v.iter().map(|x| self.piece_text(x, vals)).collect::<Vec<_>>().join(" ")),
             Piece::Str(s) => format!("\"{}\"", s),
-            Piece::Use(..) | Piece::Cont | Piece::DefStmt(..) | Piece::UndefStmt(..) => String::new(),
+            Piece::Use(..) | Piece::Cont | Piece::Cmt(_) | Piece::DefStmt(..) | Piece::UndefStmt(..) => String::new(),
         }
     }
 
@@ -819,7 +823,7 @@ impl<'a> Eval<'a> {
                 self.text_with_usages(&t, depth, o)?;
             }
             Piece::Str(_) => o.push(self.piece_text(p, vals)),
-            Piece::Cont => {}
+            Piece::Cont | Piece::Cmt(_) => {}
             Piece::DefStmt(n, b) => {
                 // the expansion is re-preprocessed: the definition is kept in the output and adopted into the table
                 let name = self.piece_text(n, vals).trim().to_string();
@@ -1022,6 +1026,9 @@ impl<'r> Gen<'r> {
 
     fn body_piece(&mut self, nf: usize, formals: &[(String, Option<String>)]) -> Piece {
         let k = self.r.below(100);
+        if self.r.chance(1, 16) {
+            return Piece::Cmt(format!("/* {} */", self.fresh("c")));
+        }
         if nf == 0 {
             return match k {
                 0..=69 => Piece::Tok(self.fresh("b")),
@@ -1121,7 +1128,9 @@ impl<'r> Gen<'r> {
                 // K1 steering: a nested usage never directly follows a piece that can render as a string;
                 // a continuation is never first or doubled
                 let can_be_string = |q: &Piece| matches!(q, Piece::Str(_) | Piece::Strfy(_) | Piece::Formal(_) | Piece::Use(..) | Piece::Paste(_));
-                if matches!(p, Piece::Use(..)) && b.last().map(|q| can_be_string(q) || matches!(q, Piece::Cont)).unwrap_or(false) {
+                // (a comment between two pieces is transparent for these rules)
+                let last_sig = b.iter().rev().find(|q| !matches!(q, Piece::Cmt(_))).cloned();
+                if matches!(p, Piece::Use(..)) && last_sig.as_ref().map(|q| can_be_string(q) || matches!(q, Piece::Cont)).unwrap_or(false) {
                     b.push(Piece::Tok(self.fresh("b")));
                 }
                 if matches!(p, Piece::Cont) && (b.is_empty() || matches!(b.last(), Some(Piece::Cont))) {
@@ -1129,7 +1138,7 @@ impl<'r> Gen<'r> {
                 }
                 // text after an argument-less nested usage must not be able to start with `(` (an actual
                 // argument or default such as `(a1)` would be read as the usage's argument list)
-                if matches!(b.last(), Some(Piece::Use(_, None))) && matches!(p, Piece::Formal(_) | Piece::Paste(_) | Piece::Cont) {
+                if matches!(last_sig, Some(Piece::Use(_, None))) && matches!(p, Piece::Formal(_) | Piece::Paste(_) | Piece::Cont) {
                     b.push(Piece::Tok(self.fresh("b")));
                 }
                 if matches!(p, Piece::Str(_)) {
